@@ -63,6 +63,7 @@ def tasks(tier, seed):
     for k in (1, 2, 3, 4):
         ts.append({"part": "addrs", "k": k, "name": "addrs/%d" % k})
     ts.append({"part": "history", "name": "history"})
+    ts.append({"part": "scoped", "name": "scoped"})
     return ts
 
 
@@ -239,6 +240,55 @@ def addr_case(outs, user_opt, timeout, other_errno, tsrc="settimeout", fam="v4")
     return None
 
 
+def scoped_case(kinds, dup):
+    """Link-local IPv6 address reachable through several interfaces: the resolver's entries differ only in the scope id (dup: the first entry
+    is also repeated literally). Every DISTINCT socket address is an address of its own and is tried in order; whether a literal duplicate of
+    a refused address is tried again is not specified."""
+    import socket as S
+    lib.reset_globals()
+    env.install_urandom("counter")
+    net = simnet.Net()
+    ents = [(S.AF_INET6, "fe80::1", i + 2) for i in range(len(kinds))]
+    if dup:
+        ents = [ents[0]] + ents
+        kinds = [kinds[0]] + list(kinds)
+    net.resolver = lambda host, port: list(ents)
+    by_scope = {e[2]: k for e, k in zip(ents, kinds)}
+    net.dial = lambda n_, s, a: by_scope[a[3]]
+    net.peer_for = lambda n_, s, a: Peer()
+    simnet.install(net)
+    try:
+        try:
+            ws = lib.websocket.create_connection("ws://printer.local/feed")
+            out = None
+            ws.close()
+        except Exception as e:
+            out = e
+    finally:
+        simnet.uninstall()
+    tried = [e[2][3] for e in net.log if e[0] == "connect"]
+    distinct = []
+    for t in tried:
+        if t not in distinct:
+            distinct.append(t)
+    want = []
+    result = ("raise", None)
+    for e, k in zip(ents, kinds):
+        if e[2] in want:
+            continue
+        want.append(e[2])
+        if k == "accept":
+            result = ("ok", e[2])
+            break
+    label = "link-local address with scope ids %r (outcomes %r)%s" % ([e[2] for e in ents], kinds, " incl. a literal duplicate" if dup else "")
+    if distinct != want or (result[0] == "ok") != (out is None):
+        return ({"kind": "address-fallthrough", "scoped": True, "dup": dup}, "%s: tried scope ids %r, outcome %r; every distinct address up to the first accepting one (%r) must be tried" % (
+            label, tried, out, want))
+    if out is not None and not isinstance(out, OSError):
+        return ({"kind": "unexpected-exception", "exc": type(out).__name__}, "%s: %r" % (label, out))
+    return None
+
+
 def _settings():
     import socket as S
     A, B = (S.SOL_SOCKET, S.SO_RCVBUF, 12345), (S.SOL_SOCKET, S.SO_SNDBUF, 23456)
@@ -316,6 +366,13 @@ def run_task(desc):
                 n += 1
                 rec(guarded(url_case, u, p % 64 == 1), {"case": "url", "url": u})
         res["samples"].append({"ports": [desc["lo"], desc["hi"] - 1, desc["step"]]})
+    elif desc["part"] == "scoped":
+        for k in (1, 2, 3):
+            for kinds in itertools.product(["accept", errno.ECONNREFUSED, errno.ENETUNREACH], repeat=k):
+                for dup in (False, True):
+                    n += 1
+                    rec(guarded(scoped_case, list(kinds), dup), {"case": "scoped", "args": [list(kinds), dup]})
+        res["samples"].append({"scoped_lists": n})
     elif desc["part"] == "history":
         ns = len(_settings())
         for i in range(ns):
@@ -344,6 +401,8 @@ def replay(rep):
         f = url_case(rep["url"])
     elif rep["case"] == "history":
         f = history_case(*rep["args"])
+    elif rep["case"] == "scoped":
+        f = scoped_case(*rep["args"])
     else:
         a = rep["args"]
         f = addr_case(tuple(a[0]), a[1], a[2], a[3], a[4] if len(a) > 4 else "settimeout", a[5] if len(a) > 5 else "v4")
